@@ -70,6 +70,8 @@ pub struct RunResult {
     pub order_hash: u64,
     pub procs: Vec<ProcInst>,
     pub wall_us: u64,
+    /// logical clock ticks this invocation advanced (script and workload writes, script durations)
+    pub sim_ticks: u64,
 }
 
 impl RunResult {
@@ -272,8 +274,9 @@ pub fn run_invocation(sc: &Scenario, case: &mut Case, inv: &Invocation, tag: &st
         }
     };
     let text = std::fs::read(&trace_path).map(|b| String::from_utf8_lossy(&b).into_owned()).unwrap_or_default();
-    let r = result_from(code, String::from_utf8_lossy(&out.stderr).into_owned(), &text, wall_us);
+    let mut r = result_from(code, String::from_utf8_lossy(&out.stderr).into_owned(), &text, wall_us);
     if let Some(f) = &r.footer {
+        r.sim_ticks = f.clock.saturating_sub(plan.clock_start);
         case.clock = case.clock.max(f.clock);
     }
     case.clock += 1;
@@ -297,7 +300,7 @@ pub fn result_from(code: i32, stderr: String, text: &str, wall_us: u64) -> RunRe
         }
     }
     let procs = build_procs(&events);
-    RunResult { code, stderr, events, footer, trace_digest: digest, order_hash: oh, procs, wall_us }
+    RunResult { code, stderr, events, footer, trace_digest: digest, order_hash: oh, procs, wall_us, sim_ticks: 0 }
 }
 
 pub fn read_trace_text(case: &Case, tag: &str) -> String {
